@@ -48,6 +48,9 @@ DEFAULT_PROFILE = dict(
     custom_events=0.0,            # probability of user-defined base Events placed in periods that also hold a built-in event
     near_level_pilots=0.0,        # scripted party: share of finite-rate pilots placed within the EVSE's 1e-3 A tolerance of a level
     reconfig=0.0,                 # probability that the operator changes constraint limits mid-run (environment fault)
+    reconfig_at_crash=0.5,        # ... and, given a limit change and an interruption, that the change is made AT the interruption point
+    forced_unplug=0.0,            # probability (given an interruption) that the operator pulls a cable at the interruption point (C05)
+    monitor=0.1,                  # probability that an operator script reads sim.*_as_df() at the end of some periods and edits its frames
     refill=0.15,                  # probability that later events are added to the simulator's queue only after run() returned (run() is then called again)
     aware_start=0.0,              # probability that the simulation start is a pytz-aware instant a few periods before a DST transition of its zone
     evse_subclass=0.1,            # probability that continuous EVSEs of the world are instances of a user subclass of EVSE (overrides delegate to the base class)
@@ -456,7 +459,16 @@ def gen_world(rs: int, P: dict) -> dict:
             k = rr2.choice(cons)
             rc.append({"t": rr2.randint(1, last), "name": k["name"],
                        "limit": max(1.0, round(k["limit"] * rr2.choice([0.4, 0.6, 0.8, 1.25, 1.6, 2.5]), 1))})
+        rrm = sub(rs, "reconfig_remove")
+        if rrm.random() < P.get("reconfig_remove", 0.3):
+            # the operator withdraws a limit altogether (a bare remove_constraint, nothing added in its place)
+            rrm.choice(rc)["op"] = "remove"
         sc["reconfig"] = sorted(rc, key=lambda x: x["t"])
+    place_crash_interventions(rs, sc, P)
+    rmon = sub(rs, "monitor")
+    if P.get("monitor", 0) and rmon.random() < P["monitor"] and last >= 1:
+        # the operator's monitoring script: at the end of some periods it fetches the result tables and post-processes ITS frames in place
+        sc["monitor"] = sorted({rmon.randint(0, last) for _ in range(rmon.randint(1, 3))})
     return sc
 
 
@@ -469,7 +481,8 @@ def constraints_at(sc, t):
             for i, c in enumerate(cons):
                 if c["name"] == r["name"]:
                     c = dict(cons.pop(i), limit=r["limit"])
-                    cons.append(c)
+                    if r.get("op") != "remove":
+                        cons.append(c)
                     break
     return cons
 
@@ -569,6 +582,67 @@ def call_periods(sc):
             calls.append(t)
             last = t
     return calls
+
+
+def attempt_plan(sc):
+    """Reference model of the scheduler party's invocation ATTEMPTS: [(attempt number, period, fault kind or None)]. An attempt that
+    crashes (or hands in a malformed schedule, which run() refuses) is repeated in the same period; an invalid pilot ends the run."""
+    faults = {f["at_call"]: f for f in sc.get("faults", [])}
+    plan, inv = [], 0
+    for t in call_periods(sc):
+        while True:
+            inv += 1
+            k = faults.get(inv, {}).get("kind")
+            plan.append((inv, t, k))
+            if k == "invalid_pilot":
+                return plan
+            if k not in ("crash", "mutate_crash", "malformed"):
+                break
+            if inv > 10000:
+                break
+    return plan
+
+
+def crash_periods(sc):
+    """Periods in which the fault plan interrupts run() with an exception from the scheduler (model; see attempt_plan)."""
+    return sorted({t for _, t, k in attempt_plan(sc) if k in ("crash", "mutate_crash")})
+
+
+def attempt_precedes_intervention(sc, rec):
+    """True for a scheduler attempt that ends in an injected failure in a period for which the fault plan holds an operator
+    intervention at the interruption point: what such an attempt saw (limits, connected sessions) is the state BEFORE the
+    intervention, while constraints_at(sc, t) describes period t after it. Probes made during such an attempt are not judged."""
+    if rec.get("fault") not in ("crash", "mutate_crash"):
+        return False
+    t = rec["t"]
+    return any(r.get("at_crash") and r["t"] == t for r in sc.get("reconfig", ())) or any(iv["t"] == t for iv in sc.get("interventions", ()))
+
+
+def place_crash_interventions(rs, sc, P):
+    """Operator interventions AT an interruption point: between the scheduler's failure in period T and the resumption the operator
+    changes a constraint limit (sc['reconfig'] entry with at_crash) or pulls a cable (sc['interventions']). Idempotent; the flags only
+    take effect while the fault plan still interrupts period T (driver.Ctx.at_crash), otherwise the limit change happens between
+    periods T-1 and T as usual and the cable stays in."""
+    for r in sc.get("reconfig", []):
+        r.pop("at_crash", None)
+    sc.pop("interventions", None)
+    cp = [t for t in crash_periods(sc) if t >= 1]     # (from period 1 on: a change "between periods T-1 and T" must remain possible)
+    ri = sub(rs, "crash_interventions")
+    if not cp:
+        return sc
+    if sc.get("reconfig") and ri.random() < P.get("reconfig_at_crash", 0.5):
+        r = ri.choice(sc["reconfig"])
+        r["t"] = ri.choice(cp)
+        r["at_crash"] = True
+        # (changes of one period are made in list order: between-period changes first, the one at the interruption point last)
+        sc["reconfig"].sort(key=lambda x: (x["t"], bool(x.get("at_crash"))))
+    if P.get("forced_unplug", 0) and ri.random() < P["forced_unplug"]:
+        T = ri.choice(cp)
+        cand = [s for s in sc["sessions"] if s["arrival"] <= T < s["departure"]]
+        if cand:
+            s = ri.choice(cand)
+            sc["interventions"] = [{"t": T, "kind": "unplug", "session": s["session_id"], "station": s["station"]}]
+    return sc
 
 
 def gen_faults(rs, sc, P):
